@@ -21,13 +21,15 @@ EXPECT = {
     'h': ('cell:h', [[1, 1]]),
     'sq': ('cell:<lambda>@18', [[0, 1]]),
     'cube': ('cell:<lambda>@19', [[0, 2]]),
+    # a name bound to a functools.wraps wrapper: the function named is the wrapper (what calling the name runs), not what it wraps
+    'deco': ('cell:wrapper', [[2, 1], [3, 1]]),
 }
 MOD_EXPECT = {'lpv_mod.py:mf': [[1, 1], [2, 4], [3, 3], [4, 1]], 'lpv_mod.py:mg': [[1, 1]], 'lpv_mod.py:run': [[1, 1]]}     # not: lpv_base.Base.helper, inherited by lpv_mod.Child
 
 
 def cases(ctx):
     out = []
-    fsets = [[], ['f'], ['g'], ['f', 'g'], ['K.meth'], ['f', 'K.meth', 'h'], ['sq', 'cube'], ['cube', 'f', 'sq']]
+    fsets = [[], ['f'], ['g'], ['f', 'g'], ['K.meth'], ['f', 'K.meth', 'h'], ['sq', 'cube'], ['cube', 'f', 'sq'], ['deco'], ['deco', 'g']]
     msets = [[], ['lpv_mod'], ['lpv_pkg.sub'], ['lpv_mod', 'lpv_pkg.sub']]
     optsets = [[], ['-r'], ['-r', '-s'], ['-r', '-u 1e-3'], ['-s'], ['-r', '-s', '-u 1e-6']]
     kinds = ['none', 'exit', 'kbint', 'error']
@@ -62,7 +64,7 @@ def oracle(c, r):
     want_builtins = 'same' if c['pre_profile'] else 'absent'
     if r['builtins_after'] != want_builtins:
         bad.append({'builtins.profile_after': r['builtins_after'], 'expected': want_builtins})
-    want_names = ['lpv_mod', 'lpv_pkg', 'res', 'res2', 'res3', 'res4', 'res5'] + (['after'] if kind == 'none' else [])
+    want_names = ['lpv_mod', 'lpv_pkg', 'res', 'res2', 'res3', 'res4', 'res5', 'res6'] + (['after'] if kind == 'none' else [])
     if sorted(r['new_names']) != sorted(want_names):
         bad.append({'user_namespace_new_names': r['new_names'], 'expected': sorted(want_names)})
     if r['trace_after']:
